@@ -45,7 +45,7 @@ META = {
  "C13": dict(engine="vcore", technique=PBT + "round trip through the real Framed sink and stream under generated fragmentation and partial writes; hostile byte streams judged against an independent reference parser with a step bound; cmsg builder/iterator round trip with a canary; libFuzzer target c13_frames (thorough)",
   text="4x10^5 generated cases per quick run over every framer/codec and control-message lists; 8x10^6 + 4x10^5 libFuzzer executions thorough.",
   note="Hostile bytes are not fed to the unsafe AncillaryIter::new / RecvMsgMultiResult::new, whose contract requires kernel-valid input."),
- "C14": dict(engine="vcore", technique=PBT + "generated sender/receiver scripts over TCP, Unix stream, UDP and Unix datagram sockets and accept programs on both drivers; position-coded payload equality, datagram truncation and source-address oracles, accept-exactly-once",
+ "C14": dict(engine="vcore", technique=PBT + "generated sender/receiver scripts over TCP, Unix stream, UDP and Unix datagram sockets and accept programs on both drivers; position-coded payload equality, datagram truncation and source-address oracles, accept-exactly-once; request/response uploads under back-pressure with the reply read armed on the same descriptor, stalls judged by state (part duplex)",
   text="~10 600 generated cases per quick run: sender/receiver scripts on one connection (every send/recv flavour incl. vectored, zero-copy, managed, multishot, split halves, 0-300 KiB), datagram lists with per-datagram flavours and capacities incl. ancillary data, accept programs mixing accept() and incoming().",
   note="Kernel loopback trusted (<= 16 outstanding datagrams); multishot streams are only dropped when nothing is outstanding; MSG_CTRUNC is a label, not a verdict."),
  "C15": dict(engine="vcore", technique=PBT + "generated transport schedules (per-call byte limits, pending-then-wake, flush-gated visibility) of an in-memory duplex under both TLS back-ends, and a throttling proxy under WebSocket; stream equality, exact dead-lock detection and step bound",
